@@ -96,6 +96,7 @@ fn impok() { import "c16mod"; return c16mod.one(); }
 fn impmissing() { import "c16nomod"; return 1; }
 fn impbad() { import "c16bad"; return 1; }
 fn daisy(prev) { return Fiber.new(|| { prev.call(); Fiber.yield(1); return 2; }); }
+fn strand(i) { var a = Fiber.new(|| { return 0; }); fn f() { return a; } var g = nil; { var b = i; fn h() { return b; } g = h; } return g; }
 """
 C16BAD = "var = ;\n"
 C16MOD = "fn one() { return [Error, IndexError, ValueError, StopIter, Iter, MapIter].len() - 5; }\nvar table = [1, 2, 3];\n"
@@ -142,6 +143,10 @@ def render(ir, n):
     for sp in ir["spikes"]:
         if sp[0] == "start":
             e("  acc = acc + spike(%d, %d);" % (sp[1], sp[2]))
+    if ir.get("strand"):
+        # three closures stay alive, each over the INNER variable of a frame whose outer variable (a fiber) another closure
+        # captured; that other closure is dropped, so at quiescence none of those fibers is reachable (invariant I6 counts them)
+        e("  var ring9 = [nil, nil, nil];")
     e("  var i = 0;")
     e("  while i < n {")
     e("    var s = i %% %d;" % k)
@@ -151,6 +156,8 @@ def render(ir, n):
             e("    if i == %d { acc = acc + spike(%d, %d); }" % (ir["n"] // 2, sp[1], sp[2]))
     for g, site in ir["body"]:
         e("    " + GARBAGE[g].replace("{site}", site or ""))
+    if ir.get("strand"):
+        e("    ring9[i % 3] = strand(i);")
     for j, expr in enumerate(ir.get("nat", [])):
         # built-ins called with awkward arguments: whatever each call does - a value or an error - it must leave nothing behind
         e("    try { natshow(%s); } catch ne%d { acc = acc + 1; }" % (expr, j))
@@ -283,6 +290,8 @@ class C16:
             idx -= N_NAT[tier]      # (the other programs keep the seeds they had before the NAT family was added)
             cseed = derive(seed, "C16", idx)
         ir = gen_ir(cseed)
+        if nat or idx % 2 == 0:
+            ir["strand"] = True
         if nat:
             ir["nat"] = nat
             ir["n"] = 150 + cseed % 250       # many different calls, few rounds: a leak of one object per round shows in N vs 2N
